@@ -11,6 +11,16 @@
      Cut(n,seen,fired,timers)  content of the reported checkpoint n, read back
                         from a fresh operator deployed from it
      Reset              next recorded run
+   and, in runs of the fault arm (seeded faults bound to points of the run):
+     Cancel(sr)         the request context of sender sr was cancelled
+     Call(..., fail)    the handler returned an error for this request (made
+                        to fail, or its context was done): nothing is applied
+     AckFail(n)         job.OperatorCheckpointComplete(n) failed (its context
+                        was done): checkpoint n is NOT reported
+     Ret(sr, err)       a sender whose call returned an error stops
+   After a failed handler call or a failed report the operator instance never
+   reports a checkpoint again (`doomed`): what it applies afterwards is not
+   judged, a checkpoint it reports nevertheless is (Ack/Cut).
 
    The events are explained at the level of what property C02 demands, using
    Align's ghost variables (sent, acks, seen, fired, cut) and Align's own
@@ -40,6 +50,8 @@ Fresh ==
   /\ seen = {} /\ fired = {} /\ timers = {}
   /\ cut = [n \in {} |-> 0] /\ acks = <<>>
   /\ lastcalls = <<>> /\ hist = <<>>
+  /\ cx = [s \in Senders |-> FALSE] /\ ncancel = 0 /\ failnext = FALSE /\ nhfail = 0
+  /\ stopped = FALSE /\ doomed = FALSE /\ early = FALSE /\ fstart = 0
 
 TraceInit == Fresh /\ l = 1 /\ earlyw = {} /\ excessw = {}
 
@@ -54,7 +66,9 @@ WmOK(e, x) == e \cap x = {}
 Ev == TraceLog[l]
 IsEvent(e) == l <= Len(TraceLog) /\ Ev.op = e /\ l' = l + 1
 
-Keep == UNCHANGED <<slen, waitfor, nskip, ck, nclosed, loop, lph, batch, token, armed, inflight, nfired, wm, timers, lastcalls, hist>>
+Keep0 == UNCHANGED <<slen, waitfor, nskip, ck, nclosed, loop, lph, batch, token, armed, inflight, nfired, wm, timers, lastcalls, hist,
+                     ncancel, failnext, nhfail, stopped, fstart, early>>
+Keep == Keep0 /\ UNCHANGED <<cx, doomed>>
 
 TStart ==
   /\ IsEvent("Start") /\ UNCHANGED <<earlyw, excessw>> /\ Ev.sr \in Senders
@@ -69,29 +83,45 @@ THook ==
   /\ (IsEvent("Park") \/ IsEvent("Pass")) /\ Ev.sr \in Senders /\ pc[Ev.sr] = "pass"
   /\ Keep /\ UNCHANGED <<sent, pc, seen, fired, cut, acks, earlyw, excessw>>
 
+TCancel ==
+  /\ IsEvent("Cancel") /\ Ev.sr \in Senders
+  /\ cx' = [cx EXCEPT ![Ev.sr] = TRUE]
+  /\ Keep0 /\ UNCHANGED <<doomed, sent, pc, seen, fired, cut, acks, earlyw, excessw>>
+
+\* the report of checkpoint n failed: nothing was reported
+TAckFail ==
+  /\ IsEvent("AckFail") /\ doomed' = TRUE
+  /\ Keep0 /\ UNCHANGED <<cx, sent, pc, seen, fired, cut, acks, earlyw, excessw>>
+
 TFire == IsEvent("Fire") /\ Keep /\ UNCHANGED <<sent, pc, seen, fired, cut, acks, earlyw, excessw>>
 
 TRet ==
   /\ IsEvent("Ret") /\ Ev.sr \in Senders /\ pc[Ev.sr] = "pass"
-  /\ earlyw' = IF Cur(Ev.sr).k = "w" /\ ~Ev.err
+  /\ earlyw' = IF Cur(Ev.sr).k = "w" /\ ~Ev.err /\ ~doomed
                 THEN earlyw \cup (BarriersBefore(Ev.sr, Len(sent[Ev.sr])) \ Rg(acks)) ELSE earlyw
   /\ WmOK(earlyw', excessw) /\ UNCHANGED excessw
-  /\ pc' = [pc EXCEPT ![Ev.sr] = "idle"]
+  /\ pc' = [pc EXCEPT ![Ev.sr] = IF Ev.err THEN "dead" ELSE "idle"]
   /\ Keep /\ UNCHANGED <<sent, seen, fired, cut, acks>>
 
 \* C02, second half: what reaches the handler must not stem from an item
 \* delivered after a barrier whose checkpoint is not complete.
 TCall ==
-  /\ IsEvent("Call")
+  /\ IsEvent("Call") /\ ~Ev.fail
   /\ \A u \in Rng(Ev.items) :
         /\ u.sr \in Senders /\ u.idx \in 1..Len(sent[u.sr]) /\ sent[u.sr][u.idx].k = "e"
-        /\ u.t = "e" => BarriersBefore(u.sr, u.idx) \subseteq Rg(acks)
-  /\ excessw' = IF Ev.w > AllowWm \/ \E u \in Rng(Ev.items) : u.t = "t" /\ u.T > AllowWm
+        /\ (u.t = "e" /\ ~doomed) => BarriersBefore(u.sr, u.idx) \subseteq Rg(acks)
+  /\ excessw' = IF ~doomed /\ (Ev.w > AllowWm \/ \E u \in Rng(Ev.items) : u.t = "t" /\ u.T > AllowWm)
                  THEN excessw \cup OpenIds ELSE excessw
   /\ WmOK(earlyw, excessw') /\ UNCHANGED earlyw
   /\ seen' = seen \cup {[sr |-> u.sr, idx |-> u.idx] : u \in {x \in Rng(Ev.items) : x.t = "e"}}
   /\ fired' = fired \cup {[sr |-> u.sr, idx |-> u.idx, T |-> u.T] : u \in {x \in Rng(Ev.items) : x.t = "t"}}
   /\ Keep /\ UNCHANGED <<sent, pc, cut, acks>>
+
+\* the handler returned an error: nothing of the request is applied
+TCallFail ==
+  /\ IsEvent("Call") /\ Ev.fail /\ doomed' = TRUE
+  /\ \A u \in Rng(Ev.items) : u.sr \in Senders /\ u.idx \in 1..Len(sent[u.sr]) /\ sent[u.sr][u.idx].k = "e"
+  /\ Keep0 /\ UNCHANGED <<cx, sent, pc, seen, fired, cut, acks, earlyw, excessw>>
 
 \* a checkpoint is acknowledged only after every runner delivered its barrier
 TAck ==
@@ -116,9 +146,10 @@ TReset ==
   /\ IsEvent("Reset") /\ earlyw' = {} /\ excessw' = {}
   /\ sent' = [s \in Senders |-> <<>>] /\ pc' = [s \in Senders |-> "idle"]
   /\ seen' = {} /\ fired' = {} /\ cut' = [n \in {} |-> 0] /\ acks' = <<>>
-  /\ Keep
+  /\ cx' = [s \in Senders |-> FALSE] /\ doomed' = FALSE
+  /\ Keep0
 
-TraceNext == TStart \/ THook \/ TFire \/ TRet \/ TCall \/ TAck \/ TCut \/ TReset
+TraceNext == TStart \/ THook \/ TFire \/ TRet \/ TCall \/ TCallFail \/ TAck \/ TAckFail \/ TCancel \/ TCut \/ TReset
 TraceSpec == TraceInit /\ [][TraceNext]_tvars
 
 TraceAccepted ==
